@@ -272,7 +272,9 @@ func vbCheck(tab []Feature) {
 }
 
 // round trip: forward complete ranges with distinct classes, cut at 1..2 positions, concatenated
-// in order and repaired: the table must come back (source partial markers aside).
+// in order and repaired: the table must come back (source partial markers aside).  Four table
+// shapes: one source first, two sources, and the source feature in the middle / at the end of a
+// table that was not built with Insert.
 func vbRoundTrip() int {
 	n := 0
 	const L = 9
@@ -286,9 +288,21 @@ func vbRoundTrip() int {
 	keys := []string{"gene", "CDS"}
 	for _, r1 := range ranges {
 		for _, r2 := range ranges {
-			for variant := 0; variant < 2; variant++ {
+			for variant := 0; variant < 4; variant++ {
 				tab := FeatureSlice{}
-				if variant == 0 {
+				if variant >= 2 {
+					// a table that is not in the order Insert keeps (New takes any slice): the source
+					// feature in the middle or at the end, so that after the cut its later fragment is
+					// inserted before its earlier one
+					src := Feature{"source", Range(0, L), Props{{"organism", "x"}}}
+					f1 := Feature{keys[0], r1, Props{{"gene", "a"}}}
+					f2 := Feature{keys[1], r2, Props{{"gene", "b"}}}
+					if variant == 2 {
+						tab = FeatureSlice{f1, src, f2}
+					} else {
+						tab = FeatureSlice{f1, f2, src}
+					}
+				} else if variant == 0 {
 					tab = tab.Insert(Feature{"source", Range(0, L), Props{{"organism", "x"}}})
 				} else {
 					// two source features with different qualifiers (a chimeric record): the second one
@@ -296,8 +310,10 @@ func vbRoundTrip() int {
 					tab = tab.Insert(Feature{"source", Range(0, 4), Props{{"organism", "x"}}})
 					tab = tab.Insert(Feature{"source", Range(4, L), Props{{"organism", "y"}}})
 				}
-				tab = tab.Insert(Feature{keys[0], r1, Props{{"gene", "a"}}})
-				tab = tab.Insert(Feature{keys[1], r2, Props{{"gene", "b"}}})
+				if variant < 2 {
+					tab = tab.Insert(Feature{keys[0], r1, Props{{"gene", "a"}}})
+					tab = tab.Insert(Feature{keys[1], r2, Props{{"gene", "b"}}})
+				}
 				orig := make([]Feature, len(tab))
 				copy(orig, tab)
 				seq := New(nil, tab, p)
